@@ -103,6 +103,19 @@ func mkPostfix(tok token.Token, left ast.Expression) ast.Expression {
 // suffixes; a registered prefix operator binds like the built-in unary ones.
 func ZZH5aGrouping() {
 	nops := 2 + sym.Choose("nops", sym.Param("ops", 3)-1) // operators in the flat expression
+	if sym.Param("prelude", 0) == 1 {
+		// an unrelated builder used earlier in the same process: its dynamic ids
+		// coincide with ours (every lexer builder counts from 1000), its levels do not
+		lb0 := lexer.NewBuilder()
+		o1, o2 := lb0.RegisterTokenType("other1"), lb0.RegisterTokenType("other2")
+		pb0 := parser.NewBuilder(lb0)
+		lv := sym.Int("otherlevel")
+		sym.Assume(sym.And(lv >= 2, lv <= 13))
+		pb0.RegisterInfixOperator(o1, lv, mkBinary)
+		pb0.RegisterInfixOperator(o2, 14-lv, mkBinary)
+		pb0.RegisterPostfixOperator(lb0.RegisterTokenType("other3"), mkPostfix)
+		pb0.Build("")
+	}
 	lb := lexer.NewBuilder()
 	c1 := lb.RegisterTokenType("c1")
 	c2 := lb.RegisterTokenType("c2")
